@@ -332,10 +332,11 @@ impl S3OcflStore {
             &sidecar_src.file_name().unwrap().to_string_lossy(),
         );
 
-        self.do_with_rollback(uploaded, |done: &mut Vec<String>| -> Result<()> {
+        // The keys written here replace the root inventory of the previous version: a failure
+        // must not delete them, the caller puts the previous ones back
+        self.do_with_rollback(uploaded, |_done: &mut Vec<String>| -> Result<()> {
             self.s3_client
                 .put_object_file(&inventory_dst, &inventory_src, Some(TYPE_JSON))?;
-            done.push(inventory_dst.clone());
             self.s3_client
                 .put_object_file(&sidecar_dst, &sidecar_src, Some(TYPE_PLAIN))?;
             Ok(())
@@ -577,27 +578,88 @@ impl OcflStore for S3OcflStore {
         );
 
         let uploaded = self.upload_all_files_with_rollback(&version_dst_path, version_path)?;
-        self.install_inventory_in_root_with_rollback(
-            &existing_inventory.object_root,
-            inventory.digest_algorithm,
-            version_path,
-            uploaded,
-        )?;
+
+        // The root inventory and its sidecar are replaced, and on an upgrade the object version
+        // declaration is too. What is replaced is kept so that it can be put back if installing
+        // the new version fails part way through.
+        let object_root = existing_inventory.object_root.as_str();
+        let root_inventory = join(object_root, INVENTORY_FILE);
+        let root_sidecar = join(
+            object_root,
+            &paths::sidecar_name(existing_inventory.digest_algorithm),
+        );
+        let previous_inventory = self.s3_client.get_object(&root_inventory)?;
+        let previous_sidecar = self.s3_client.get_object(&root_sidecar)?;
+        let upgrade = inventory.type_declaration != existing_inventory.type_declaration;
+        let old_namastes = if upgrade {
+            self.find_files(object_root, OBJECT_NAMASTE_FILE_PREFIX)?
+        } else {
+            Vec::new()
+        };
+        let mut previous_namastes = Vec::with_capacity(old_namastes.len());
+        for old in &old_namastes {
+            previous_namastes.push((old.clone(), self.s3_client.get_object(old)?));
+        }
+        let new_namaste = inventory
+            .spec_version()
+            .filter(|_| upgrade)
+            .map(|version| join(object_root, version.object_namaste().filename));
+
+        let install = || -> Result<()> {
+            self.install_inventory_in_root_with_rollback(
+                object_root,
+                inventory.digest_algorithm,
+                version_path,
+                Vec::new(),
+            )?;
+
+            if upgrade {
+                self.write_object_namaste(object_root, inventory.spec_version().unwrap())?;
+                for old in &old_namastes {
+                    if Some(old) != new_namaste.as_ref() {
+                        self.s3_client.delete_object(old)?;
+                    }
+                }
+            }
+
+            Ok(())
+        };
+
+        if let Err(e) = install() {
+            let restore = |path: &str, content: Option<Vec<u8>>, content_type: &str| {
+                if let Some(content) = content {
+                    if let Err(e2) =
+                        self.s3_client
+                            .put_object_bytes(path, Bytes::from(content), Some(content_type))
+                    {
+                        error!("Failed to restore {}: {}", path, e2);
+                    }
+                }
+            };
+
+            if let Some(new_namaste) = &new_namaste {
+                if !old_namastes.contains(new_namaste) {
+                    if let Err(e2) = self.s3_client.delete_object(new_namaste) {
+                        error!("Failed to rollback file {}: {}", new_namaste, e2);
+                    }
+                }
+            }
+            for (path, content) in previous_namastes {
+                restore(&path, content, TYPE_PLAIN);
+            }
+            restore(&root_inventory, previous_inventory, TYPE_JSON);
+            restore(&root_sidecar, previous_sidecar, TYPE_PLAIN);
+
+            for path in &uploaded {
+                if let Err(e2) = self.s3_client.delete_object(path) {
+                    error!("Failed to rollback file {}: {}", path, e2);
+                }
+            }
+
+            return Err(e);
+        }
 
         inventory.storage_path = existing_inventory.storage_path;
-
-        if inventory.type_declaration != existing_inventory.type_declaration {
-            // This is a version upgrade
-            let old_namastes =
-                self.find_files(&existing_inventory.object_root, OBJECT_NAMASTE_FILE_PREFIX)?;
-            self.write_object_namaste(
-                &existing_inventory.object_root,
-                inventory.spec_version().unwrap(),
-            )?;
-            for old in old_namastes {
-                self.s3_client.delete_object(&old)?;
-            }
-        }
 
         Ok(())
     }
